@@ -233,3 +233,50 @@ def _fl_keeps(ns, best, i):
 
 
 lemma('L_FL_keeps', [('ns', NS), ('best', LSTR), ('i', INT)], _fl_keeps, ind='i', hints=lambda ns, best, i: [LEMMAS['L_FL_from'](ns, best, i - 1)])
+
+# ------------------------------------------------------------------ reward node steps (C02, C14)
+# index of the LAST successor (among the first i) attaining the running maximum (>= scan) / minimum (<= scan, seeded with the first)
+LastMax = spec('LastMax', [NS, SLT, RPT, INT], INT)
+SPEC['LastMax']['unfold'] = lambda ns, sl, X, i: LastMax(ns, sl, X, i) == If(i <= 0, IntVal(-1), If(val(ns, sl, X, i - 1) >= MaxS(ns, sl, X, i - 1), i - 1, LastMax(ns, sl, X, i - 1)))
+MinW0 = spec('MinW0', [NS, SLT, RPT, INT], REAL)
+SPEC['MinW0']['unfold'] = lambda ns, sl, X, i: MinW0(ns, sl, X, i) == If(i <= 0, val(ns, sl, X, 0), If(val(ns, sl, X, i - 1) <= MinW0(ns, sl, X, i - 1), val(ns, sl, X, i - 1), MinW0(ns, sl, X, i - 1)))
+LastMin = spec('LastMin', [NS, SLT, RPT, INT], INT)
+SPEC['LastMin']['unfold'] = lambda ns, sl, X, i: LastMin(ns, sl, X, i) == If(i <= 0, IntVal(-1), If(val(ns, sl, X, i - 1) <= MinW0(ns, sl, X, i - 1), i - 1, LastMin(ns, sl, X, i - 1)))
+# BW(class, reward, successors, state list, vector): the reward Bellman operator: 0 without transitions, else reward + max / min / weighted sum
+BW = spec('BW', [INT, REAL, NS, SLT, RPT], REAL)
+SPEC['BW']['unfold'] = lambda c, r, ns, sl, X: BW(c, r, ns, sl, X) == If(L_len(ns, NS) == 0, RealVal(0), r + If(c == P_ONE, MaxS(ns, sl, X, L_len(ns, NS)), If(c == P_TWO, MinW0(ns, sl, X, L_len(ns, NS)), SumS(ns, sl, X, L_len(ns, NS)))))
+# FilterIn(ns, strat, i): the transitions (themselves) among the first i whose label is in strat
+FilterIn = spec('FilterIn', [NS, LSTR, INT], NS)
+SPEC['FilterIn']['unfold'] = lambda ns, st_, i: FilterIn(ns, st_, i) == If(i <= 0, empty(NS), If(_inlist(t_lab(ns_at(ns, i - 1)), st_), L_app(FilterIn(ns, st_, i - 1), NS, ns_at(ns, i - 1)), FilterIn(ns, st_, i - 1)))
+# MinSel(ns, sl, X, strat, i, init): init lowered by the values of the first i successors whose label is in strat
+MinSel = spec('MinSel', [NS, SLT, RPT, LSTR, INT, REAL], REAL)
+SPEC['MinSel']['unfold'] = lambda ns, sl, X, st_, i, init: MinSel(ns, sl, X, st_, i, init) == If(i <= 0, init, If(And(_inlist(t_lab(ns_at(ns, i - 1)), st_), val(ns, sl, X, i - 1) < MinSel(ns, sl, X, st_, i - 1, init)), val(ns, sl, X, i - 1), MinSel(ns, sl, X, st_, i - 1, init)))
+lemma('L_LastMax_range', _P, lambda ns, sl, X, i: Implies(And(i >= 1, val(ns, sl, X, 0) >= 0), And(0 <= LastMax(ns, sl, X, i), LastMax(ns, sl, X, i) < i)), ind='i')
+lemma('L_LastMin_range', _P, lambda ns, sl, X, i: Implies(i >= 1, And(0 <= LastMin(ns, sl, X, i), LastMin(ns, sl, X, i) < i)), ind='i')
+# the selected value is the minimum over the selected successors (and over init)
+def _minsel(ns, sl, X, st_, i, init):
+    k = Int('k!ms')
+    M = MinSel(ns, sl, X, st_, i, init)
+    return And(M <= init, ForAll([k], Implies(And(0 <= k, k < i, _inlist(t_lab(ns_at(ns, k)), st_)), M <= val(ns, sl, X, k))),
+               Or(M == init, Exists([k], And(0 <= k, k < i, _inlist(t_lab(ns_at(ns, k)), st_), M == val(ns, sl, X, k)))))
+
+
+lemma('L_MinSel_is_min', [('ns', NS), ('sl', SLT), ('X', RPT), ('st_', LSTR), ('i', INT), ('init', REAL)], _minsel, ind='i')
+# the first selected transition exists as soon as some label is in the strategy list, and is one of the successors
+def _fin(ns, st_, i):
+    k = Int('k!fi')
+    F = FilterIn(ns, st_, i)
+    return And(L_len(F, NS) >= 0, Implies(Exists([k], And(0 <= k, k < i, _inlist(t_lab(ns_at(ns, k)), st_))), L_len(F, NS) > 0),
+               Implies(L_len(F, NS) > 0, Exists([k], And(0 <= k, k < i, _inlist(t_lab(ns_at(ns, k)), st_), L_arr(F, NS)[0] == ns_at(ns, k)))))
+
+
+lemma('L_FilterIn_first', [('ns', NS), ('st_', LSTR), ('i', INT)], _fin, ind='i')
+
+
+def _argeq_from(ns, sl, X, i, m):
+    q, k = Int('q!af'), Int('k!af')
+    A = ArgEqR(ns, sl, X, i, m)
+    return And(L_len(A, LSTR) >= 0, ForAll([q], Implies(And(0 <= q, q < L_len(A, LSTR)), Exists([k], And(0 <= k, k < i, t_lab(ns_at(ns, k)) == L_arr(A, LSTR)[q])))))
+
+
+lemma('L_ArgEqR_from', _P + [('m', REAL)], _argeq_from, ind='i')
